@@ -1313,6 +1313,29 @@ async fn run_scenario(sc: Value) -> Outcome {
                 let _ = tokio::time::timeout(Duration::from_secs(3), peer.wait_for_gathering_complete()).await;
                 continue;
             }
+            // environment events (never judged): the transport ends underneath the connection
+            // before the application calls anything.  JSEP signalling is not affected by that; if
+            // rustrtc tears the whole connection down by itself the model follows it to Closed.
+            "ice_stop" | "peer_close" => {
+                if name == "ice_stop" {
+                    pc.ice_transport().stop();
+                } else {
+                    w.peer().close();
+                }
+                let t0 = std::time::Instant::now();
+                let limit = Duration::from_secs(if name == "ice_stop" { 3 } else { 8 });
+                while pc.disconnect_reason().is_none() && t0.elapsed() < limit {
+                    tokio::time::sleep(Duration::from_millis(20)).await;
+                }
+                let reason = pc.disconnect_reason().is_some();
+                bump(&mut out.counts, if reason { "env_event_reason_recorded" } else { "env_event_no_reason" });
+                bump(&mut out.counts, &format!("env_event:{name}"));
+                if St::of(pc.signaling_state()) == St::Closed {
+                    st = St::Closed;
+                }
+                out.trace.push(json!({"i": idx, "op": name, "reason_recorded": reason, "signaling": St::of(pc.signaling_state()).name()}));
+                continue;
+            }
             "wait_connected" => {
                 let r = tokio::time::timeout(Duration::from_secs(6), pc.wait_for_connected()).await;
                 let connected = matches!(r, Ok(Ok(())));
@@ -1998,6 +2021,7 @@ fn directed() -> Vec<Value> {
     let ro = |t, src: &str, e: &str| op_json(Call::SetRemote(t), Some(src), e);
     let co = || op_json(Call::CreateOffer, None, "none");
     let ca = || op_json(Call::CreateAnswer, None, "none");
+    let cl = || op_json(Call::Close, None, "none");
     for mode in MODES {
         for edit in EDITS {
             for prefix in ["fresh", "negotiated_offerer", "negotiated_answerer"] {
@@ -2036,6 +2060,20 @@ fn directed() -> Vec<Value> {
                     "ops": [co(), lo(SdpType::Offer, "own", "none"), ro(SdpType::Answer, "helper", edit)]}));
                 v.push(json!({"class": "directed", "mode": mode, "prefix": prefix, "media": media_json("a"), "peer_media": media_json("a"),
                     "ops": [co(), lo(SdpType::Offer, "own", "none"), ro(SdpType::Pranswer, "helper", edit)]}));
+            }
+        }
+        // the transport ended (local ICE stop / peer gone) before the application closes: close()
+        // still forces Closed, Closed is terminal
+        for prefix in ["fresh", "negotiated_offerer", "connected_offerer", "connected_answerer"] {
+            for ev in ["ice_stop", "peer_close"] {
+                if ev == "peer_close" && !prefix.starts_with("connected") {
+                    continue;
+                }
+                for tail in [vec![cl()], vec![cl(), co()], vec![cl(), lo(SdpType::Offer, "helper", "none")], vec![cl(), ro(SdpType::Offer, "helper", "none")], vec![co(), cl(), cl()]] {
+                    let mut ops = vec![json!({"op": ev})];
+                    ops.extend(tail);
+                    v.push(json!({"class": "directed", "mode": mode, "prefix": prefix, "media": media_json("ad"), "peer_media": media_json("ad"), "ops": ops}));
+                }
             }
         }
         // environment fault: no UDP port can be bound by the connection under test
